@@ -15,6 +15,9 @@ namespace App
 def Active (v : Val) : Prop := v.status = .bonded ∧ v.jailed = false ∧ powerOf v.tokens > 0 ∧ v.shares ≠ 0
 def Gone (v : Val) : Prop := v.status = .bonded ∧ v.jailed = false ∧ v.tokens = 0 ∧ v.shares = 0
 def Unb (v : Val) : Prop := v.status = .unbonding ∧ v.jailed = false ∧ v.tokens = 0 ∧ v.shares = 0
+/-- jailed by x/slashing (downtime) or x/evidence (double sign): still bonded in the block of the punishment, unbonding
+    afterwards, unbonded once matured; its delegation shares remain -/
+def Jl (v : Val) : Prop := v.jailed = true ∧ v.shares ≠ 0
 
 /-- what the power table holds for a record -/
 def lastOf (v : Val) : Option Int := if v.status = .bonded then some (cur v) else none
@@ -25,14 +28,16 @@ structure IdxOk (s : App) (v : Val) : Prop where
   a2 : v.op ∈ s.updated → Active v ∧ occ v.op s.index = 2 ∧ (powerOf v.tokens, v.op) ∈ s.index
   g : Gone v → occ v.op s.index = 0
   u : Unb v → occ v.op s.index = 1 ∧ (0, v.op) ∈ s.index
+  j : v.jailed = true → occ v.op s.index = 0
 
 structure St (s : App) : Prop where
   sorted : SortedOps s.vals
   keys : ∀ v1 ∈ s.vals, ∀ v2 ∈ s.vals, v1.key = v2.key → v1 = v2
-  cls : ∀ v ∈ s.vals, Active v ∨ Gone v ∨ Unb v
+  cls : ∀ v ∈ s.vals, Active v ∨ Gone v ∨ Unb v ∨ Jl v
   hasActive : ∃ v ∈ s.vals, Active v
   pend : PendOk s
-  last : ∀ v ∈ s.vals, alookup v.op s.last = lastOf v
+  last : ∀ v ∈ s.vals, v.jailed = false → alookup v.op s.last = lastOf v
+  lastJ : ∀ v ∈ s.vals, v.jailed = true → (alookup v.op s.last ≠ none ↔ v.status = .bonded)
   lastOnly : ∀ op p, alookup op s.last = some p → (s.getVal op).isSome = true
   lastSorted : KSorted s.last
   idxEx : ∀ e ∈ s.index, (s.getVal e.2).isSome = true
@@ -45,12 +50,13 @@ structure St (s : App) : Prop where
   updEx : ∀ op ∈ s.updated, (s.getVal op).isSome = true
   qSorted : qSorted s.ubq
   qNodup : ((qEntries s.ubq).map (·.2)).Nodup
-  qRecs : ∀ e ∈ qEntries s.ubq, ∃ v, s.getVal e.2 = some v ∧ Unb v ∧ v.ubTime = e.1.1 ∧ v.ubHeight = e.1.2
+  qRecs : ∀ e ∈ qEntries s.ubq, ∃ v, s.getVal e.2 = some v ∧ v.status = .unbonding ∧ v.ubTime = e.1.1 ∧ v.ubHeight = e.1.2
 
 /-- the part of the invariant that mentions CometBFT's set -/
 structure Cm (s : App) (c : CSet) : Prop where
   cur : ∀ v ∈ s.vals, Active v → v.op ∉ s.updated → alookup v.key c = some (cur v)
   gone : ∀ v ∈ s.vals, Gone v → alookup v.key c ≠ none
+  jb : ∀ v ∈ s.vals, v.jailed = true → v.status = .bonded → alookup v.key c ≠ none
   known : ∀ k p, alookup k c = some p → ∃ v ∈ s.vals, v.key = k ∧ v.status = .bonded
   cSorted : KSorted c
   cNonneg : ∀ e ∈ c, 0 ≤ e.2
@@ -61,6 +67,12 @@ theorem active_not_unb (v : Val) (h : Active v) : ¬ Unb v := by
   intro g; have := h.1; rw [g.1] at this; cases this
 theorem gone_not_unb (v : Val) (h : Gone v) : ¬ Unb v := by
   intro g; have := h.1; rw [g.1] at this; cases this
+theorem active_not_jl (v : Val) (h : Active v) : ¬ Jl v := by
+  intro g; have := h.2.1; rw [g.1] at this; cases this
+theorem gone_not_jl (v : Val) (h : Gone v) : ¬ Jl v := by
+  intro g; have := h.2.1; rw [g.1] at this; cases this
+theorem unb_not_jl (v : Val) (h : Unb v) : ¬ Jl v := by
+  intro g; have := h.2.1; rw [g.1] at this; cases this
 
 /-- members of a record list after `insertVal` -/
 theorem mem_insertVal_split (w : Val) (l : List Val) (hs : SortedOps l) (x : Val) (hx : x ∈ insertVal w l) :
@@ -76,12 +88,13 @@ theorem mem_insertVal_split (w : Val) (l : List Val) (hs : SortedOps l) (x : Val
 theorem St_put (s s' : App) (op : Nat) (w : Val) (m : St s)
     (hwop : w.op = op) (hvals : s'.vals = insertVal w s.vals)
     (hkeyFresh : ∀ x ∈ s.vals, x.op ≠ op → x.key ≠ w.key)
-    (hcls : Active w ∨ Gone w ∨ Unb w)
+    (hcls : Active w ∨ Gone w ∨ Unb w ∨ Jl w)
     (hact : Active w ∨ ∃ x ∈ s.vals, x.op ≠ op ∧ Active x)
     (hpsub : s'.pending.Sublist s.pending)
     (hpfresh : ∀ q ∈ s'.pending, q.op ≠ op ∧ q.key ≠ w.key)
     (hlastNe : ∀ o, o ≠ op → alookup o s'.last = alookup o s.last)
-    (hlastSelf : alookup op s'.last = lastOf w)
+    (hlastSelf : w.jailed = false → alookup op s'.last = lastOf w)
+    (hlastSelfJ : w.jailed = true → (alookup op s'.last ≠ none ↔ w.status = .bonded))
     (hlastS : KSorted s'.last)
     (hidxSub : ∀ e ∈ s'.index, e ∈ s.index ∨ e.2 = op)
     (hidxNd : s'.index.Nodup)
@@ -96,7 +109,7 @@ theorem St_put (s s' : App) (op : Nat) (w : Val) (m : St s)
     (hupdS : s'.updated.Pairwise (· < ·))
     (hupdNe : ∀ o, o ≠ op → (o ∈ s'.updated ↔ o ∈ s.updated))
     (hqS : qSorted s'.ubq) (hqN : ((qEntries s'.ubq).map (·.2)).Nodup)
-    (hqR : ∀ e ∈ qEntries s'.ubq, (e.2 = op ∧ Unb w ∧ w.ubTime = e.1.1 ∧ w.ubHeight = e.1.2) ∨ (e.2 ≠ op ∧ e ∈ qEntries s.ubq)) :
+    (hqR : ∀ e ∈ qEntries s'.ubq, (e.2 = op ∧ w.status = .unbonding ∧ w.ubTime = e.1.1 ∧ w.ubHeight = e.1.2) ∨ (e.2 ≠ op ∧ e ∈ qEntries s.ubq)) :
     St s' := by
   have hget : ∀ o, s'.getVal o = (s.setVal w).getVal o := fun o => getVal_congr _ _ (by rw [hvals]; rfl) o
   have hgself : s'.getVal op = some w := by
@@ -139,10 +152,15 @@ theorem St_put (s s' : App) (op : Nat) (w : Val) (m : St s)
       · rw [e]; exact fun ek => g2 ek.symm
       · exact f2 x o)
     last := (by
-      intro x hx
+      intro x hx hj
       rcases hmemNew x hx with e | ⟨o, n⟩
-      · rw [e, hwop]; exact hlastSelf
-      · rw [hlastNe x.op n]; exact m.last x o)
+      · rw [e] at hj ⊢; rw [hwop]; exact hlastSelf hj
+      · rw [hlastNe x.op n]; exact m.last x o hj)
+    lastJ := (by
+      intro x hx hj
+      rcases hmemNew x hx with e | ⟨o, n⟩
+      · rw [e] at hj ⊢; rw [hwop]; exact hlastSelfJ hj
+      · rw [hlastNe x.op n]; exact m.lastJ x o hj)
     lastOnly := (by
       intro o q hq
       by_cases ho : o = op
@@ -173,7 +191,8 @@ theorem St_put (s s' : App) (op : Nat) (w : Val) (m : St s)
           g := (fun hg => by rw [hoccNe x.op n]; exact io.g hg)
           u := (fun hu' => by
             obtain ⟨b1, b2⟩ := io.u hu'
-            exact ⟨by rw [hoccNe x.op n]; exact b1, hidxKeep _ b2 n⟩) })
+            exact ⟨by rw [hoccNe x.op n]; exact b1, hidxKeep _ b2 n⟩)
+          j := (fun hj => by rw [hoccNe x.op n]; exact io.j hj) })
     unbond := hunb
     infos := (by
       intro x hx
